@@ -944,11 +944,12 @@ def explore(ctx, chk, b, depth_max, shape_desc):
                 if visited.get(key, 0) < left - 1:
                     visited[key] = left - 1
                     rec(p2, s1, z1, left - 1)
-            if op[0].endswith("_exit"):
-                _undo_stack(b, op, info, stack)
+            _undo_stack(b, op, info, stack)
+            if op[0].endswith("_exit") or op[0].endswith("_enter"):
+                # re-entering a block / abandoning one (closing its generator runs a `finally` restore, if the manager has one) changes the
+                # manager: write everything back
                 restore(b, s0)
             else:
-                _undo_stack(b, op, info, stack)
                 restore(b, s0, s1)  # (every deeper step has restored the manager to s1)
 
     s0 = observe(b)
